@@ -7,6 +7,7 @@ import (
 	"fmt"
 	"io"
 	"net/http/httptrace"
+	"net/textproto"
 	"os"
 	"strings"
 	"sync"
@@ -33,6 +34,7 @@ type c08Scenario struct {
 	noContinue bool // ... and the peer never says "100 Continue" (the timeout sends the body)
 	interval   time.Duration
 	midSleep   time.Duration // inject this long after the retry wait began (instead of at its start)
+	interim    int           // 1xx prefix: informational responses (103 Early Hints) before the final header
 	ctxVia     string        // how the context gets onto the request: "" = SetContext before the call,
 	// "middleware" = installed by a client-level OnBeforeRequest middleware on every attempt, "hook" =
 	// installed by a retry hook (from the first retry wait on: only points from sleepStart on are injected)
@@ -142,6 +144,7 @@ func c08Exec(sc c08Scenario, kind string, trigger int, timeoutFlavour bool, clie
 	run.peerDriven = sc.autoRead
 	run.noContinue = sc.noContinue
 	run.delay = sc.midSleep
+	run.interim = sc.interim
 
 	d := &c08Dialer{}
 	var peer c08Peer
@@ -300,6 +303,18 @@ func c08Exec(sc c08Scenario, kind string, trigger int, timeoutFlavour bool, clie
 				if !run.hit("", "getConn", true) && h1 != nil {
 					c08Open(h1.hold) // not injected here: let the busy request finish
 				}
+			}})
+		}
+		if sc.interim > 0 {
+			// "the client has processed the i-th interim response" is an injection point (observed in the
+			// goroutine that read it: readLoop / http2 read loop / the HTTP/3 caller)
+			var seen int32
+			cctx = httptrace.WithClientTrace(cctx, &httptrace.ClientTrace{Got1xxResponse: func(int, textproto.MIMEHeader) error {
+				i := int(atomic.AddInt32(&seen, 1)) - 1
+				if !run.hit("", fmt.Sprintf("interim#%d", i), true) {
+					c08Open(run.gate(&run.interimGates, i))
+				}
+				return nil
 			}})
 		}
 		switch sc.ctxVia {
@@ -687,7 +702,17 @@ func c08H3Line(o c08Obs) (line, impl string) {
 	}
 	afterResp := false
 	nm := o.firedNm
+	interims := func(n int) {
+		for i := 0; i < n; i++ {
+			tr = append(tr, "ev:peerInterim")
+		}
+	}
 	switch {
+	case strings.HasPrefix(nm, "interim#"):
+		var i int
+		fmt.Sscanf(nm, "interim#%d", &i)
+		upDone()
+		interims(i + 1)
 	case nm == "wroteHdr":
 	case strings.HasPrefix(nm, "wrote#"):
 		var i int
@@ -697,6 +722,7 @@ func c08H3Line(o c08Obs) (line, impl string) {
 		upDone()
 	case nm == "gotHeaders" || strings.HasPrefix(nm, "gotBody#"):
 		upDone()
+		interims(sc.interim)
 		tr = append(tr, "ev:peerHeaders", "act:cRespOk")
 		afterResp = true
 	default:
@@ -771,6 +797,18 @@ func c08Scenarios(proto string) []c08Scenario {
 		l = append(l, c08Scenario{name: "download-autoread", proto: proto, down: 4, autoRead: true, maxRetries: 1, interval: iv})
 	} else {
 		l = append(l, c08Scenario{name: "download-autoread", proto: proto, down: 4, autoRead: true})
+	}
+	// rare but legal: interim responses (103 Early Hints) BEFORE the final header — 1xx prefix of length 0..3:
+	// a cancellation after the k-th interim response, while waiting for the final header and while reading
+	// the body, still has to interrupt
+	l = append(l,
+		c08Scenario{name: "download-interim", proto: proto, down: 2, interim: 2},
+		c08Scenario{name: "upload-interim", proto: proto, up: 1, down: 1, interim: 1})
+	if verifh.Thorough() {
+		l = append(l,
+			c08Scenario{name: "interim3-reused", proto: proto, down: 1, interim: 3, reused: true},
+			c08Scenario{name: "upload-interim3", proto: proto, up: 2, down: 2, interim: 3},
+			c08Scenario{name: "retry-interim", proto: proto, down: 1, interim: 1, failFirst: 1, maxRetries: 1, interval: iv})
 	}
 	if proto == "h1" {
 		l = append(l, c08Scenario{name: "waitconn", proto: proto, down: 1, waitConn: true})
@@ -932,7 +970,7 @@ func c08ScriptLane(t *testing.T, proto string, lane string) {
 
 		// the client timeout (Client.SetTimeout) expiring while the exchange is stalled at a point:
 		// a real timer, so only the generous bound is asserted; per attempt, so without retries
-		if sc.maxRetries == 0 && !sc.waitConn && (verifh.Thorough() || sc.name == "fresh" || sc.name == "upload" || sc.name == "download" || sc.name == "upload-expect") {
+		if sc.maxRetries == 0 && !sc.waitConn && (verifh.Thorough() || sc.name == "fresh" || sc.name == "upload" || sc.name == "download" || sc.name == "upload-expect" || sc.name == "download-interim") {
 			var picks []int
 			if verifh.Thorough() {
 				for k := 0; k < n; k++ {
@@ -998,7 +1036,7 @@ func c08ScriptLane(t *testing.T, proto string, lane string) {
 		}
 	}
 	must := []string{"dry-ok", "point=dialStart", "point=dialDone", "point=wroteHdr", "point=wrote", "point=wroteLast",
-		"point=gotHeaders", "point=gotBody", "point=sleepStart", "point=hdrSent", "point=sent", "point=start", "res=canceled", "res=deadline", "conn=reuse", "body=closed1", "body=none"}
+		"point=gotHeaders", "point=gotBody", "point=sleepStart", "point=interim", "point=hdrSent", "point=sent", "point=start", "res=canceled", "res=deadline", "conn=reuse", "body=closed1", "body=none"}
 	must = append(must, "client-timeout")
 	switch proto {
 	case "h1":
